@@ -114,6 +114,7 @@ class FUnsupported(Exception):
 class FInterp:
     def __init__(self, havoc_calls=(), tag=""):
         self.constraints = []
+        self.targets = {}  # constraint ast id -> the term (havocked value or uninterpreted application) the constraint is ABOUT (for slicing)
         self.havoc_calls = set(havoc_calls)
         self.n_havoc = 0
         self.havoc_log = {}
@@ -125,6 +126,10 @@ class FInterp:
         self.log_apps = []
         self.exact = False
         self.uf_add = False  # sums of two symbolic doubles as an uninterpreted function with verified lemma instances (see add_lemmas)
+
+    def _about(self, target, constraint):
+        self.constraints.append(constraint)
+        self.targets[constraint.get_id()] = target
 
     # ---- fresh values ------------------------------------------------------------------
     def havoc(self, aval, why, contract=None):
@@ -138,7 +143,7 @@ class FInterp:
                 self.n_havoc += 1
                 v = z3.FP(f"hv{self.tag}_{why}_{self.n_havoc}", F64)
                 if contract is not None:
-                    self.constraints.append(contract(v))
+                    self._about(v, contract(v))
                 o[idx] = v
             self.havoc_log[why] = self.havoc_log.get(why, 0) + int(np.prod(shape, dtype=int))
             self.havocs.setdefault(why, []).append(o)
@@ -273,7 +278,8 @@ class FInterp:
         if self.exact or not self.uf_add or z3.is_fp_value(a) or z3.is_fp_value(b):
             return z3.fpAdd(RM, a, b)
         r = ADDF(a, b)
-        self.constraints.extend(add_lemmas(r, a, b).values())
+        for c_ in add_lemmas(r, a, b).values():
+            self._about(r, c_)
         self.uf_apps["add"] = self.uf_apps.get("add", 0) + 1
         return r
 
@@ -293,7 +299,8 @@ class FInterp:
         if self.exact or z3.is_fp_value(a) or z3.is_fp_value(b) or z3.is_fprm_value(a):
             return z3.fpMul(RM, a, b)
         r = MULF(a, b)
-        self.constraints.extend(mul_lemmas(r, a, b).values())
+        for c_ in mul_lemmas(r, a, b).values():
+            self._about(r, c_)
         self.uf_apps["mul"] = self.uf_apps.get("mul", 0) + 1
         return r
 
@@ -301,7 +308,8 @@ class FInterp:
         if self.exact or z3.is_fp_value(b):
             return z3.fpDiv(RM, a, b)
         r = DIVF(a, b)
-        self.constraints.extend(div_lemmas(r, a, b).values())
+        for c_ in div_lemmas(r, a, b).values():
+            self._about(r, c_)
         self.uf_apps["div"] = self.uf_apps.get("div", 0) + 1
         return r
 
@@ -348,10 +356,10 @@ class FInterp:
             self.n_havoc += 1
             v = z3.FP(f"hv{self.tag}_log_{self.n_havoc}", F64)
             self.havoc_log["log"] = self.havoc_log.get("log", 0) + 1
-            self.constraints.append(z3.Implies(z3.And(finite(x), z3.fpGT(x, fv(0.0))), z3.And(finite(v), z3.fpGEQ(v, fv(-746.0)), z3.fpLEQ(v, fv(710.0)))))
-            self.constraints.append(z3.Implies(z3.fpIsZero(x), z3.And(z3.fpIsInf(v), z3.fpIsNegative(v))))
-            self.constraints.append(z3.Implies(z3.Or(z3.fpIsNaN(x), z3.fpLT(x, fv(0.0))), z3.fpIsNaN(v)))
-            self.constraints.append(z3.Implies(z3.And(z3.fpIsInf(x), z3.fpIsPositive(x)), z3.And(z3.fpIsInf(v), z3.fpIsPositive(v))))
+            self._about(v, z3.Implies(z3.And(finite(x), z3.fpGT(x, fv(0.0))), z3.And(finite(v), z3.fpGEQ(v, fv(-746.0)), z3.fpLEQ(v, fv(710.0)))))
+            self._about(v, z3.Implies(z3.fpIsZero(x), z3.And(z3.fpIsInf(v), z3.fpIsNegative(v))))
+            self._about(v, z3.Implies(z3.Or(z3.fpIsNaN(x), z3.fpLT(x, fv(0.0))), z3.fpIsNaN(v)))
+            self._about(v, z3.Implies(z3.And(z3.fpIsInf(x), z3.fpIsPositive(x)), z3.And(z3.fpIsInf(v), z3.fpIsPositive(v))))
             self.log_apps.append((x, v))
             return v
         return vec(f, ins[0])
@@ -366,12 +374,12 @@ class FInterp:
             self.n_havoc += 1
             v = z3.FP(f"hv{self.tag}_exp_{self.n_havoc}", F64)
             self.havoc_log["exp"] = self.havoc_log.get("exp", 0) + 1
-            self.constraints.append(z3.If(z3.fpIsNaN(x), z3.fpIsNaN(v), z3.And(z3.Not(z3.fpIsNaN(v)), z3.fpGEQ(v, fv(0.0)))))
+            self._about(v, z3.If(z3.fpIsNaN(x), z3.fpIsNaN(v), z3.And(z3.Not(z3.fpIsNaN(v)), z3.fpGEQ(v, fv(0.0)))))
             # libm facts (A3): exp(+-600) = 3.8e260 / 2.7e-261;  exp(+inf) = +inf;  exp(-inf) = +0
-            self.constraints.append(z3.Implies(z3.And(finite(x), z3.fpGEQ(x, fv(-600.0)), z3.fpLEQ(x, fv(600.0))),
+            self._about(v, z3.Implies(z3.And(finite(x), z3.fpGEQ(x, fv(-600.0)), z3.fpLEQ(x, fv(600.0))),
                                                z3.And(finite(v), z3.fpGEQ(v, fv(1e-261)), z3.fpLEQ(v, fv(1e261)))))
-            self.constraints.append(z3.Implies(z3.And(z3.fpIsInf(x), z3.fpIsPositive(x)), z3.And(z3.fpIsInf(v), z3.fpIsPositive(v))))
-            self.constraints.append(z3.Implies(z3.And(z3.fpIsInf(x), z3.fpIsNegative(x)), z3.fpIsZero(v)))
+            self._about(v, z3.Implies(z3.And(z3.fpIsInf(x), z3.fpIsPositive(x)), z3.And(z3.fpIsInf(v), z3.fpIsPositive(v))))
+            self._about(v, z3.Implies(z3.And(z3.fpIsInf(x), z3.fpIsNegative(x)), z3.fpIsZero(v)))
             return v
         return vec(f, ins[0])
 
